@@ -36,6 +36,7 @@ def includeMissing : Bytes := [105, 110, 99, 108, 117, 100, 101, 45, 109, 105, 1
 
 inductive Err
   | lockContention | tokenMismatch | noSuchRevision | noSuchTag | protocol
+  | readOnly | lockNotHeld | diverged          -- session model (Model/C32S.lean)
   deriving DecidableEq, Repr
 
 def Err.toString : Err → String
@@ -44,6 +45,9 @@ def Err.toString : Err → String
   | .noSuchRevision => "E:NoSuchRevision"
   | .noSuchTag => "E:NoSuchTag"
   | .protocol => "E:Protocol"
+  | .readOnly => "E:ReadOnlyError"
+  | .lockNotHeld => "E:LockNotHeld"
+  | .diverged => "E:DivergedBranches"
 
 structure St where
   revs : Graph                       -- revisions stored in the target repository
@@ -115,6 +119,7 @@ inductive Res
   | value (v : Option Bytes)
   | pmap (m : List (RevId × List RevId))
   | info (revno : Nat) (rev : RevId)
+  | moved (old new : Nat × RevId) (conflicts : Nat)     -- tip before / after (+ tag conflicts) of a pull / tip change
   deriving DecidableEq, Repr
 
 /-- token the script presents: the remembered one, or one that was never issued -/
@@ -261,12 +266,18 @@ def errName : Err → Bytes
   | .noSuchRevision => [78, 111, 83, 117, 99, 104, 82, 101, 118, 105, 115, 105, 111, 110]
   | .noSuchTag => [78, 111, 83, 117, 99, 104, 84, 97, 103]
   | .protocol => [101, 114, 114, 111, 114]
+  | .readOnly => [82, 101, 97, 100, 79, 110, 108, 121, 69, 114, 114, 111, 114]
+  | .lockNotHeld => [76, 111, 99, 107, 78, 111, 116, 72, 101, 108, 100]
+  | .diverged => [68, 105, 118, 101, 114, 103, 101, 100]
 
 def decErr (b : Bytes) : Err :=
   if b = errName .lockContention then .lockContention
   else if b = errName .tokenMismatch then .tokenMismatch
   else if b = errName .noSuchRevision then .noSuchRevision
   else if b = errName .noSuchTag then .noSuchTag
+  else if b = errName .readOnly then .readOnly
+  else if b = errName .lockNotHeld then .lockNotHeld
+  else if b = errName .diverged then .diverged
   else .protocol
 
 def okBytes : Bytes := [111, 107]
